@@ -33,14 +33,13 @@ THEOREMS = [
     "C15_no_temp_left",
     "C15_error_unchanged",
     "C15_complete_when_no_fault",
-    "C15_format_fault_unchanged",
-    "C15_write_fault_unchanged",
     "C15_history",
     "C15_order_sequence",
     "C15_order_closed_form",
     "C15_order_terminator_last",
     "C15_order_blocks",
-    "C15_order_blank_count",
+    "C15_order_nothing_lost",
+    "C15_order_before_repair_refuted",
     "C15_commit_table",
 ]
 
